@@ -33,11 +33,14 @@ def grant (s : Src) (req : Nat) : Nat :=
   let n := min req (s.remaining + s.extra)
   if s.chunk = 0 then n else min n s.chunk
 
-/-- `callback(buf, req, data)`: the bytes written to `buf` and the new source -/
+/-- `callback(buf, req, data)`: the bytes written to `buf` and the new source.  A request that
+crosses the physical end of a member source is answered with 0 bytes and kills the source; a
+0-byte answer is replaced by `req` zero bytes when `zeroFill` is set (pm1's wrapper). -/
 def read (s : Src) (req : Nat) : List UInt8 × Src :=
   let n := s.grant req
-  if n = 0 ∧ s.zeroFill then (List.replicate req 0, s)
-  else if n > s.remaining then ([], { s with dead := true })
+  if n > s.remaining then
+    (if s.zeroFill then List.replicate req 0 else [], { s with dead := true })
+  else if n = 0 ∧ s.zeroFill then (List.replicate req 0, s)
   else ((s.data.extract s.pos (s.pos + n)).toList, { s with pos := s.pos + n })
 
 end Src
